@@ -28,27 +28,28 @@ func initFns(pkg *ssa.Package) []*ssa.Function {
 }
 
 type EntrySpec struct {
-	Dir        string            `json:"dir"`
-	Entry      string            `json:"entry"`
-	Tier       string            `json:"tier"` // quick | thorough | both
-	Mode       string            `json:"mode"` // R | F
-	Solver     string            `json:"solver"`
-	Unwind     int               `json:"unwind"`
-	MaxPaths   int               `json:"max_paths"`
-	TimeoutMs  int               `json:"timeout_ms"`
-	ForkMap    bool              `json:"fork_map_order"`
-	AllowCuts  bool              `json:"allow_cuts"`
-	CutReason  string            `json:"cut_reason"`
-	Redirects  map[string]string `json:"redirects"`
-	Desc       string            `json:"desc"`
-	Bounds     string            `json:"bounds"`
-	Race       bool              `json:"race"`
-	Overflow   bool              `json:"overflow"`
-	Tol        float64           `json:"tol"`
-	Schedule   bool              `json:"schedule"` // C16: collect access traces and run the schedule query
-	MaxEnum    int               `json:"max_enum"`
-	NoValidate bool              `json:"no_validate"`
-	ExpectNd   bool              `json:"expect_no_nondeterminism"`
+	Dir          string              `json:"dir"`
+	Entry        string              `json:"entry"`
+	Tier         string              `json:"tier"` // quick | thorough | both
+	Mode         string              `json:"mode"` // R | F
+	Solver       string              `json:"solver"`
+	Unwind       int                 `json:"unwind"`
+	MaxPaths     int                 `json:"max_paths"`
+	TimeoutMs    int                 `json:"timeout_ms"`
+	ForkMap      bool                `json:"fork_map_order"`
+	AllowCuts    bool                `json:"allow_cuts"`
+	CutReason    string              `json:"cut_reason"`
+	Redirects    map[string]string   `json:"redirects"`
+	Desc         string              `json:"desc"`
+	Bounds       string              `json:"bounds"`
+	Race         bool                `json:"race"`
+	Overflow     bool                `json:"overflow"`
+	Tol          float64             `json:"tol"`
+	Schedule     bool                `json:"schedule"` // C16: collect access traces and run the schedule query
+	MaxEnum      int                 `json:"max_enum"`
+	NoValidate   bool                `json:"no_validate"`
+	ExpectNd     bool                `json:"expect_no_nondeterminism"`
+	NativeRename map[string][]string `json:"native_rename"`
 }
 
 type CheckSpec struct {
@@ -395,7 +396,7 @@ func cmdCheck(args []string) int {
 				break
 			}
 			p := filepath.Join(os.TempDir(), fmt.Sprintf("gosym-witness-%d-%s-%d-%d.json", os.Getpid(), id, ei, i))
-			witnessJobs = append(witnessJobs, ReplayJob{Dir: es.Dir, Entry: es.Entry, Script: w.Script, Tol: es.Tol, Path: p, Real: es.Mode != "F"})
+			witnessJobs = append(witnessJobs, ReplayJob{Dir: es.Dir, Entry: es.Entry, Script: w.Script, Tol: es.Tol, Path: p, Real: es.Mode != "F", Rename: es.NativeRename})
 			witnessObs[p] = w.Observed
 			witnessEntry[p] = len(reports)
 		}
@@ -419,7 +420,7 @@ func cmdCheck(args []string) int {
 	// ---- native replay of counter-examples and witness validation (one go test per package) ----
 	var jobs []ReplayJob
 	for _, c := range cands {
-		jobs = append(jobs, ReplayJob{Dir: c.spec.Dir, Entry: c.spec.Entry, Script: c.v.Script, Tol: c.spec.Tol, Path: c.path, Real: c.spec.Mode != "F"})
+		jobs = append(jobs, ReplayJob{Dir: c.spec.Dir, Entry: c.spec.Entry, Script: c.v.Script, Tol: c.spec.Tol, Path: c.path, Real: c.spec.Mode != "F", Rename: c.spec.NativeRename})
 	}
 	needRace := false
 	for _, c := range cands {
